@@ -107,7 +107,7 @@ CLAIMS = {
             "Lean 4: on the regenerated image_placement graph (3 shapes x 40 versions, decide +kernel): frame side odd, "
             "nondecreasing in the version, 5b < 2n, n - b >= 16, image side integer and <= b (C18_table); symbolic in the margin "
             "and in exact dyadic overrides on the model of SvgBuilder::image: default frame origin = margin + (n-b)/2 on both axes "
-            "with the image centred (C18_default_frame; closed for every version, built-in shape and margin with all table hypotheses discharged: integer origin k, 2k + b = n + 2*margin, at least 8 modules from every symbol edge, 5b < 2n, 0 < s <= b — C18_default_closed), explicit position = frame centre (C18_position), explicit size/gap: "
+            "with the image centred (C18_default_frame; closed for every version, built-in shape and margin with all table hypotheses discharged: integer origin k, 2k + b = n + 2*margin, at least 8 modules from every symbol edge, 5b < 2n, 0 < s <= b — C18_default_closed; the same for the side of every symbol the model builder returns — C18_default_built, which inherits the native template/scan facts through C03_invariance), explicit position = frame centre (C18_position), explicit size/gap: "
             "image = S, frame = S+2G or S+2G-1 (C18_size_gap). Correspondence: real attributes parsed to exact rationals, "
             "exhaustive for defaults (40x3x17); the ImageBuilder forwarding is tied by the frame bounding box measured in the rendered pixmap.",
             "Trusted: Lean kernel; translator; f64 rounding and float formatting modelled as exact dyadics (validated by byte-exact comparison on dyadic inputs).",
